@@ -420,6 +420,18 @@ def int_to_str(x):
 
 
 def percent_format(fmt, args):
+    """'fmt' % args with symbolic operands: rendered lazily; the (fmt, args) pair stays attached so that a
+    parser of the same text (e.g. Decimal('%de%d' % ...)) can be modelled on the values instead of the digits"""
+    if fmt == '%02x' and type(args) is SymInt:
+        if bool((args >= 0) & (args <= 255)):
+            return HexStr([args])
+    r = LazyStr(lambda: _percent_format(fmt, args))
+    r.__dict__['fmt'] = fmt
+    r.__dict__['args'] = args
+    return r
+
+
+def _percent_format(fmt, args):
     import re
     if isinstance(fmt, bytes):
         raise Inconclusive('bytes %% with symbolic operand')
